@@ -310,6 +310,8 @@ NAMES = sorted(TABLE)
 MAY_MUTATE = {'apply_bad_setting', 'remove_bad_setting', 'fmatch_bad_setting', 'unfmatch_bad_setting', 'fillchar',
               'huge_width', 'huge_tabsize', 'bad_regex'}
 
+ALWAYS_IN_PLACE = {'apply_bad_setting', 'remove_bad_setting', 'fmatch_bad_setting', 'unfmatch_bad_setting', 'bad_regex'}
+
 # Wrong-*type* arguments are deliberately not injected: C09 quantifies over "arguments of the
 # documented types", so nothing is promised for them (the helper functions above that build such
 # calls are kept only for manual experiments and are not in TABLE).
